@@ -54,7 +54,7 @@ impl<R: Read + Seek> ReadBox<&mut R> for MdiaBox {
             // Get box header.
             let header = BoxHeader::read(reader)?;
             let BoxHeader { name, size: s } = header;
-            if s > size {
+            if s > size || s < HEADER_SIZE {
                 return Err(Error::InvalidData(
                     "mdia box contains a box with a larger size than it",
                 ));
